@@ -124,6 +124,14 @@ impl Ctl {
         }
     }
 
+    /// Replace an instance's readiness script WITHOUT waking the worker: the change is noticed at the worker's
+    /// next poll, whatever triggers it (for example a connection arriving).
+    pub fn set_script_quiet(&self, instance: u64, steps: &[ReadyStep]) {
+        let mut g = self.inner.lock().unwrap();
+        let i = g.instances.entry(instance).or_default();
+        i.script = steps.iter().copied().collect();
+    }
+
     /// Drop the current (sticky) readiness step of an instance and wake it.
     pub fn advance(&self, instance: u64) {
         let w = {
@@ -328,6 +336,12 @@ where
                         match stream.read(&mut b).await {
                             Ok(0) => break,
                             Ok(n) if b[..n].contains(&b'q') => break,
+                            Ok(n) if b[..n].contains(&b's') => {
+                                // a handler that blocks its worker thread (2.5 s)
+                                uev("stall_begin", id, instance, 0);
+                                thread::sleep(Duration::from_millis(2500));
+                                uev("stall_end", id, instance, 0);
+                            }
                             Ok(_) => {}
                             Err(_) => return Err(()),
                         }
@@ -614,6 +628,10 @@ impl Client {
             Err(e) if matches!(e.kind(), std::io::ErrorKind::WouldBlock | std::io::ErrorKind::TimedOut | std::io::ErrorKind::Interrupted) => false,
             Err(_) => true,
         }
+    }
+
+    pub fn send(&mut self, bytes: &[u8]) {
+        let _ = self.sock.write_all(bytes);
     }
 
     pub fn close(self) {
